@@ -886,11 +886,28 @@ impl<'a> Parser<'a> {
             })));
         }
 
-        // Check for getter/setter
-        let method_kind = if self.check_keyword("get") {
+        // Check for getter/setter (`get` / `set` directly followed by `(`, `=`, `;`, `:`, `?`,
+        // `!`, `<` or `}` is a member that is itself named get / set)
+        let accessor_word = (self.check_keyword("get") || self.check_keyword("set")) && {
+            let checkpoint = self.lexer.checkpoint();
+            let next = self.lexer.next_token();
+            self.lexer.restore(checkpoint);
+            !matches!(
+                next.kind,
+                TokenKind::LParen
+                    | TokenKind::Eq
+                    | TokenKind::Semicolon
+                    | TokenKind::Colon
+                    | TokenKind::Question
+                    | TokenKind::Bang
+                    | TokenKind::Lt
+                    | TokenKind::RBrace
+            )
+        };
+        let method_kind = if accessor_word && self.check_keyword("get") {
             self.advance();
             MethodKind::Get
-        } else if self.check_keyword("set") {
+        } else if accessor_word && self.check_keyword("set") {
             self.advance();
             MethodKind::Set
         } else {
@@ -3617,11 +3634,18 @@ impl<'a> Parser<'a> {
         } else {
             None
         };
-        // Handle default value
-        if self.match_token(&TokenKind::Eq) {
-            // For now, skip the default value expression by parsing and ignoring it
-            let _default = self.parse_assignment_expression()?;
-        }
+        // Default value becomes AssignmentPattern
+        let pattern = if self.match_token(&TokenKind::Eq) {
+            let right = Rc::new(self.parse_assignment_expression()?);
+            let span = self.span_from(start);
+            Pattern::Assignment(AssignmentPattern {
+                left: Box::new(pattern),
+                right,
+                span,
+            })
+        } else {
+            pattern
+        };
         let span = self.span_from(start);
         Ok(FunctionParam {
             pattern,
